@@ -46,7 +46,10 @@ fn parse_coh(s: &str) -> Vec<(&'static Language, f32)> {
 
 impl Driver {
     pub fn start(path: &str) -> Driver {
-        let mut child = Command::new(path)
+        // the extracted model recurses over lists as long as the payload: lift the stack limit
+        let mut child = Command::new("sh")
+            .arg("-c")
+            .arg(format!("ulimit -s unlimited 2>/dev/null || ulimit -s 4000000 2>/dev/null; exec {}", path))
             .stdin(Stdio::piped())
             .stdout(Stdio::piped())
             .spawn()
@@ -64,8 +67,12 @@ impl Driver {
     }
 
     fn send(&mut self, l: &str) {
-        self.stdin.write_all(l.as_bytes()).unwrap();
-        self.stdin.write_all(b"\n").unwrap();
+        let _ = self.stdin.write_all(l.as_bytes());
+        let _ = self.stdin.write_all(b"\n");
+    }
+
+    pub fn died(lines: &[String]) -> bool {
+        lines.iter().any(|l| l == "R DRIVER-DIED")
     }
 
     fn answer(&mut self, q: &str) -> String {
@@ -161,7 +168,7 @@ impl Driver {
         let mut out = vec![];
         loop {
             let mut l = String::new();
-            let n = self.stdout.read_line(&mut l).expect("driver read");
+            let n = self.stdout.read_line(&mut l).unwrap_or(0);
             if n == 0 {
                 out.push("R DRIVER-DIED".to_string());
                 return out;
@@ -170,7 +177,7 @@ impl Driver {
             if let Some(q) = l.strip_prefix("Q ") {
                 let a = self.answer(q);
                 self.send(&a);
-                self.stdin.flush().unwrap();
+                let _ = self.stdin.flush();
             } else if l == "END" {
                 return out;
             } else {
@@ -198,19 +205,19 @@ impl Driver {
             self.send(&format!("S {}", hex(x.as_bytes())));
         }
         self.send(&format!("B {}", hex(bytes)));
-        self.stdin.flush().unwrap();
+        let _ = self.stdin.flush();
         self.collect(false)
     }
 
     pub fn cmp_keys(&mut self, a: [u32; 3], b: [u32; 3]) -> String {
         self.send(&format!("CMP {} {} {} {} {} {}", a[0], a[1], a[2], b[0], b[1], b[2]));
-        self.stdin.flush().unwrap();
+        let _ = self.stdin.flush();
         self.collect(true).pop().unwrap_or_default()
     }
 
     pub fn name(&mut self, s: &str) -> Option<String> {
         self.send(&format!("NAME {}", hex(s.as_bytes())));
-        self.stdin.flush().unwrap();
+        let _ = self.stdin.flush();
         let l = self.collect(true).pop().unwrap_or_default();
         match l.strip_prefix("R ") {
             Some("NONE") => None,
@@ -240,7 +247,7 @@ impl Driver {
                 }
             ));
         }
-        self.stdin.flush().unwrap();
+        let _ = self.stdin.flush();
         self.collect(false)
     }
 }
